@@ -351,6 +351,40 @@ OutwardJudged(c, TL, pos) ==
     Cardinality({q \in Quads(c) : LET f == FlipCriterion(c, pos, q)
                                   IN Small(Off(c, pos, q[1][1] * RingLen(c) + q[1][2] + 1)) /\ f[1] > f[2]})
 
+(***************************************************************************)
+(* NoTwist: consecutive rings are not turned against each other about the  *)
+(* path.  With a frame carried along the path, slot s of ring k+1 is slot  *)
+(* s of ring k turned by the bend (at most a right angle between the two   *)
+(* ring planes), so the dot products of corresponding offsets sum to       *)
+(* sum_s (a_s^2 + b_s^2 cos(bend)) >= 0 (a, b: components along / across   *)
+(* the bend axis).  A frame that is flipped by half a turn between two     *)
+(* rings gives exactly the negative of that: a strip twisted into an       *)
+(* hourglass.  Judged between rings k and k+1 of one open run (not across  *)
+(* the closing strip: the transported frame of a closed spatial path need  *)
+(* not return to its start), rings of zero thickness excepted; slack = one *)
+(* unit of rounding per coordinate.  A quarter-turn twist of a symmetric   *)
+(* stencil sums to zero and is NOT detected.                               *)
+(***************************************************************************)
+NoTwist(c, pos, k) ==
+    LET rl == RingLen(c)
+        o(kk, s) == Coarse(Off(c, pos, kk * rl + s), Den(c))
+        slots == [s \in 1..Slots(c) |-> s - 1]
+        sum == FoldLeft(LAMBDA acc, s : acc + Dot(o(k, s), o(k + 1, s)), 0, slots)
+        slack == FoldLeft(LAMBDA acc, s : acc + 2 * (L1(o(k, s)) + L1(o(k + 1, s)) + 2), 0, slots)
+    IN /\ \A s \in 0..(Slots(c) - 1) : Small(Off(c, pos, k * rl + s)) /\ Small(Off(c, pos, (k + 1) * rl + s))
+       /\ sum >= -slack
+\* Classification of a twist (for the SIGNATURE only): Shape / ClosedShape take the in-plane
+\* axis of a ring from the bend axis at that point (and, at both ends, from the bend a closed
+\* path would make there), not from a frame carried along the path.  On a path that does not
+\* lie in one plane the axis jumps by a quarter turn between bends about different axes.
+SegW(c, k) == IF k = Len(c.path) THEN VSub(c.path[1], c.path[k]) ELSE Seg(c, k)      \* with the wrap segment
+BendAxes(c) ==
+    {Cross(SegW(c, k), SegW(c, (k % Len(c.path)) + 1)) : k \in 1..Len(c.path)} \ {Zero3}
+SpatialPath(c) == \E u, w \in BendAxes(c) : Cross(u, w) # Zero3
+TwistClass(c) == IF c.gen \in ShapeFamily /\ SpatialPath(c) THEN "bend-axis-frame-on-spatial-path" ELSE "none"
+TwistPairs(c) ==
+    {k \in 0..(NRings(c) - 2) : c.gen \in ShapeFamily \/ (Thick(c, k) > 0 /\ Thick(c, k + 1) > 0)}
+
 (* ------------------------- Screw: closed form ------------------------- *)
 \* sin / cos of a/b of a full turn, times 2^14 (BigNat fixed point, error < 2^-13)
 Fix14(x) == Limb(x, 3) * K + Limb(x, 2)
